@@ -33,6 +33,26 @@ Theorem C17_throttle_bound_total : forall cfg h ss ops L t0 T,
   pulled None T (snd (run h ss ops)) * unit L <= lburst L * unit L + lp L * (T - t0 + 1).
 Proof. exact throttle_bound_total. Qed.
 
+(* every schedule, no assumption on the order in which concurrent Reads reach the limiters: the
+   only excess is the rate times the total backward jump of the reservation instants (rate.go
+   re-credits the interval when an instant precedes the previous one); [back_sum id tr] is that
+   total for limiter id, 0 when clock_ordered *)
+Theorem C17_throttle_bound_every_schedule : forall cfg h ss ops c L t0 T,
+  0 < rq cfg -> 0 < trq cfg -> provision cfg = Some h ->
+  hlocal h = Some L -> linf L = false ->
+  Forall op_ok ops -> conn_reads_from h ss c t0 ops -> t0 <= T ->
+  pulled (Some c) T (snd (run h ss ops)) * unit L
+  <= lburst L * unit L + lp L * (T - t0 + 1) + lp L * back_sum (Local c) (snd (run h ss ops)).
+Proof. exact throttle_bound_conn_any. Qed.
+
+Theorem C17_throttle_bound_total_every_schedule : forall cfg h ss ops L t0 T,
+  0 < rq cfg -> 0 < trq cfg -> provision cfg = Some h ->
+  htotal h = Some L -> linf L = false ->
+  Forall op_ok ops -> all_reads_from h ss t0 ops -> t0 <= T ->
+  pulled None T (snd (run h ss ops)) * unit L
+  <= lburst L * unit L + lp L * (T - t0 + 1) + lp L * back_sum Total (snd (run h ss ops)).
+Proof. exact throttle_bound_total_any. Qed.
+
 (* no byte is pulled before the latency has passed; a connection cancelled while waiting is never read *)
 Theorem C17_first_read_after_latency : forall cfg h ss ops c t b bs,
   0 < rq cfg -> 0 < trq cfg -> provision cfg = Some h ->
@@ -105,8 +125,34 @@ Proof.
   vm_compute. repeat split.
 Qed.
 
+(* the back_sum term is necessary: total limit 1000 B/s, burst 100; the third Read reaches the
+   limiter with a clock reading 50 ms older than the second one's; 400 bytes are pulled by
+   t0 + 250 ms although burst + rate * 250 ms = 350; the excess is rate * 50 ms *)
+Definition bj_cfg : tconfig :=
+  {| rp := 0; rq := 1; rmax := false; rburst := 0; trp := 1000; trq := 1; trmax := false; tburst := 100; latency := 0 |}.
+Definition bj_ss : list session :=
+  repeat {| sstart := 0; sjit := 0; scancel := false; sdata := repeat x42 1000 |} 3.
+Definition bj_op (c : nat) (t : Z) : op := {| oc := c; olen := 100; odelay := t; oj2 := 0; oj3 := 0; oavail := 100 |}.
+Definition bj_ops : list op := [bj_op 1 900000000; bj_op 0 1000000000; bj_op 2 950000000; bj_op 0 1050000000].
+Example C17_back_jump_excess :
+  exists h L, provision bj_cfg = Some h /\ htotal h = Some L /\
+    all_reads_from h bj_ss 900000000 bj_ops /\
+    back_sum Total (snd (run h bj_ss bj_ops)) = 50000000 /\
+    pulled None 1150000000 (snd (run h bj_ss bj_ops)) = 400 /\
+    lburst L * unit L + lp L * (1150000000 - 900000000 + 1) < 400 * unit L /\
+    400 * unit L <= lburst L * unit L + lp L * (1150000000 - 900000000 + 1) + lp L * 50000000.
+Proof.
+  eexists. eexists. split; [vm_compute; reflexivity|]. split; [reflexivity|].
+  split; [intros o s rdy Hin Hs Hr; cbn in Hin; repeat (destruct Hin as [<-|Hin]); try contradiction;
+          cbn in Hs; inversion Hs; subst s; vm_compute in Hr; inversion Hr; subst rdy; vm_compute; discriminate|].
+  vm_compute. repeat split; discriminate.
+Qed.
+
 Print Assumptions C17_throttle_bound.
+Print Assumptions C17_back_jump_excess.
 Print Assumptions C17_throttle_bound_total.
+Print Assumptions C17_throttle_bound_every_schedule.
+Print Assumptions C17_throttle_bound_total_every_schedule.
 Print Assumptions C17_first_read_after_latency.
 Print Assumptions C17_throttle_identity.
 Print Assumptions C17_read_within_batch.
